@@ -323,16 +323,11 @@ def generate(rng, tier, n):
     if TIERS.get(tier, {}).get("exhaustive") and n >= TIERS[tier]["n"]:
         for c in sweep(tier):
             yield c
+    # kinds interleaved so that the first generated cases (used by the driver's canary) are of different kinds
+    order = ["rev", "jsonl", "split", "indent", "rev", "split", "rev", "jsonl", "split", "rev"]
+    gens = {"rev": gen_rev, "jsonl": gen_jsonl, "split": gen_split, "indent": gen_indent}
     for i in range(n):
-        x = i % 10
-        if x < 3:
-            yield gen_split(rng, tier)
-        elif x < 4:
-            yield gen_indent(rng, tier)
-        elif x < 8:
-            yield gen_rev(rng, tier)
-        else:
-            yield gen_jsonl(rng, tier)
+        yield gens[order[i % 10]](rng, tier)
 
 
 # --------------------------------------------------------------------------
